@@ -4,13 +4,16 @@ import os
 from vf import Inconclusive, parallel, require_clean, validate_traces, trace_slice, vfj_lines, b2s
 
 CLAIM = {
-    "text": "Sorting.tla specifies, per sort mode, the order axioms every comparator must satisfy on every pool of distinct keys (asymmetric, total, transitive; reverse = converse) and the strict order on homogeneous pools (decimal magnitude, weekday/month position, chronological in three layouts, totals, raw bytes), plus the --sort name:modifier table; TLC proves on the model that the axioms make every start permutation of an implementation-shaped sort end in one sequence (and that a non-transitive comparator does not), and checks the laws of the specified orders over key universes. The real comparators built by helpers.BuildSorter are then evaluated on all ordered pairs of seeded key pools (fresh instance per pair and one instance reused), every permutation of small subsets and random permutations of larger pools are sorted through sorting.Sort/SortBy, the aggregators' sorted accessors (Go map order) and the rare binary, and TLC validates every recorded decision matrix and sort result against the specification; TLC-enumerated homogeneous pools with their expected sequence are replayed on the real code.",
-    "note": "Bounded: pools of at most 21 keys from fixed universes (numbers in several spellings, text, weekday/month names, three date layouts, mixtures, unmodelled spellings); the model sort is insertion sort (what sort.Sort runs up to 12 keys) plus the uniqueness law for any correct comparison sort. Layout detection (dateparse) is trusted on the three modelled layouts and on digit-free keys; locale is not modelled; nothing is demanded of less(k,k). Known findings: the contextual and date comparators switch strategy for good after the first key they cannot place, so mixed pools are ordered by arrival.",
+    "text": "Sorting.tla specifies, per sort mode, the order axioms every comparator must satisfy on every pool of distinct keys (asymmetric, total, transitive; reverse = converse) and the strict order on homogeneous pools (decimal magnitude, weekday/month position, chronological by INSTANT in five layouts - two of them with numeric UTC offsets, so one instant has several spellings -, totals as mathematical integers of a bounded type with an explicit width, raw bytes), plus the --sort name:modifier table; TLC proves on the model that the axioms make every start permutation of an implementation-shaped sort end in one sequence (and that a non-transitive comparator does not), checks the laws of the specified orders over key universes, that the scaling map binding narrow totals to the 64-bit code is monotone, reaches both extremes and commutes with wrapping subtraction for every pair of widths, and rejects two negative controls (a value comparator deciding by the sign of the wrapped difference; a date comparator that breaks ties only between equal offsets). The real comparators built by helpers.BuildSorter are then evaluated on all ordered pairs of seeded key pools (fresh instance per pair and one instance reused), every permutation of small subsets and random permutations of larger pools are sorted through sorting.Sort/SortBy, the aggregators' sorted accessors (Go map order) and the rare binary, and TLC validates every recorded decision matrix and sort result against the specification; TLC-enumerated homogeneous pools (incl. pools with tied keys and pools of totals spanning the whole int64 range) with the ranks the specification assigns are replayed on the real code.",
+    "note": "Bounded: pools of at most 21 keys from fixed universes (numbers in several spellings, text, weekday/month names, three date layouts, mixtures, unmodelled spellings); the model sort is insertion sort (what sort.Sort runs up to 12 keys) plus the uniqueness law for any correct comparison sort. Totals reach the code as v*2^(64-W)+off for W-bit model totals v (W <= 16; offsets 0, 1, 2^(64-W)-1, or a separate lowest bit), so every total the code sees is one of at most 2^17 points of the int64 range, the extremes included. Layout detection (dateparse) is trusted on the five modelled layouts and on digit-free keys; UTC offsets up to 14:59; locale is not modelled; nothing is demanded of less(k,k). Known findings: the contextual and date comparators switch strategy for good after the first key they cannot place, so mixed pools are ordered by arrival.",
     "technique": "TLA+ model checking (TLC) of order axioms and a comparator-driven sort + trace validation of recorded comparator matrices and sort results + model-vector replay",
 }
 
 MC_INVS = ("ModelAsym ModelTotal ModelTrans ModelIrrefl ModelExtendsSpec SpecIrrefl SpecAsym SpecTrans SpecTieTrans "
-           "TextTotal NumAgrees KindSanity ParseCase ParseDefault ParseMods ParseStrict ParseModeSet")
+           "TextTotal NumAgrees KindSanity ParseCase ParseDefault ParseMods ParseStrict ParseModeSet "
+           "CivilAgrees UnixAgrees UniverseOK")
+WIDTH_INVS = ("EmbedRange EmbedMonotone EmbedExtremes EmbedNeighbours EmbedHom WrapExact WrapInverts DiffLessCommutes DiffLessBroken "
+              "MathLessOrder")
 LAWS = "total asym trans same converse deterministic reverse matrix spec perm parse shape"
 
 
@@ -24,9 +27,16 @@ def check(run):
     run.assumptions += [
         "keys of one aggregation are distinct strings; nothing is demanded of less(k, k)",
         "decimal literals: at most 15 significant digits and a 2-digit exponent are 'numbers'; hex floats, inf/nan, "
-        "out-of-range exponents are class 'unk' (only the order axioms are demanded)",
-        "dates: layouts YYYY-MM-DD, YYYY-MM-DD hh:mm:ss, MM/DD/YYYY with year >= 1000; github.com/araddon/dateparse "
-        "trusted to detect these and to reject digit-free ASCII keys; numbers in `date` mode: axioms only",
+        "out-of-range exponents, digits separated by underscores (1_0) are class 'unk' (only the order axioms are demanded)",
+        "dates: layouts YYYY-MM-DD, YYYY-MM-DD hh:mm:ss, MM/DD/YYYY (UTC), YYYY-MM-DDThh:mm:ss+hh:mm and "
+        "YYYY-MM-DD hh:mm:ss +hhmm (numeric offset up to 14:59; the key denotes the instant civil time - offset) with "
+        "year >= 1000; github.com/araddon/dateparse trusted to detect these and to reject digit-free ASCII keys; "
+        "numbers in `date` mode: axioms only",
+        "totals are int64; the specification's totals are W-bit integers (W <= 16) or small integers handed to the code "
+        "through the strictly monotone map stated in every vector / trace (Sorting.tla Embed, B = 64); TLC decides the "
+        "map's laws for B <= 9 only (32-bit integers), the instance B = 64 is by uniformity in B",
+        "package-level sorters NVNameSorter / NVSmartSorter / NVValueSorter are held to the text / numeric / value "
+        "specification; their tie-break direction may differ from the --sort comparators (compared within one source only)",
         "weekday/month names: English full names and the abbreviations of the table in Sorting.tla, ASCII letter case",
         "`--sort` strings: ASCII, non-empty name, at most one colon",
         "value mode: larger totals first; the direction of the name tie-break is not specified, only that it is a "
@@ -37,12 +47,30 @@ def check(run):
 
     # ------------------------------------------------------------------ B3 (model) jobs
     def b3_laws():
-        cfg = "INIT Init\nNEXT Next\nCONSTANTS Big = %s\nINVARIANTS %s\nCHECK_DEADLOCK FALSE\n" % (
-            "FALSE" if quick else "TRUE", MC_INVS)
+        big = "FALSE" if quick else "TRUE"
+        cfg = "INIT Init\nNEXT Next\nCONSTANTS Big = %s\n Variant = \"ref\"\nINVARIANTS %s\nCHECK_DEADLOCK FALSE\n" % (
+            big, MC_INVS)
         r = run.tlc("Sorting_MC", cfg, workers=6 if quick else 8, timeout=3000,
                     label="Sorting_MC laws Big=%s" % (not quick))
         require_clean(run, r, "Sorting_MC laws")
         return r
+
+    def b3_width():
+        big = "FALSE" if quick else "TRUE"
+        # totals are integers of a bounded type: the scaling map of the binding is sound for every width
+        w = run.tlc("SortingWidth", "INIT WInit\nNEXT WNext\nCONSTANTS MaxB = %d\nINVARIANTS %s\nCHECK_DEADLOCK FALSE\n" % (
+            7 if quick else 9, WIDTH_INVS), workers=2, timeout=3000, label="SortingWidth laws")
+        require_clean(run, w, "SortingWidth laws")
+        # negative controls (not part of the verdict): the model must REJECT a value comparator deciding by the
+        # sign of the wrapped difference and a date comparator that breaks ties only between equal offsets
+        for variant, must in (("wrapdiff", ("ModelAsym", "ModelTrans")), ("eqloc", ("ModelTotal",))):
+            ncfg = ("INIT NegInit\nNEXT Next\nCONSTANTS Big = %s\n Variant = \"%s\"\nINVARIANTS ModelAsym ModelTotal ModelTrans\n"
+                    "CHECK_DEADLOCK FALSE\n" % (big, variant))
+            n = run.tlc("Sorting_MC", ncfg, workers=1, timeout=1200,
+                        label="Sorting_MC negative control %s (expected counter-example)" % variant)
+            if not any(m in n.violated for m in must):
+                raise Inconclusive("negative control %s: the model accepted a comparator that is not an order" % variant)
+        return w
 
     def b3_algo():
         out = []
@@ -125,7 +153,7 @@ def check(run):
                 run, "Sorting_Trace", path, label="Sorting_Trace %s" % mode, xmx="3g", timeout=3000)))
         return stats, parallel(jobs, 5)
 
-    b3l, b3a, b1res, (stats, b2res) = parallel([b3_laws, b3_algo, b1, b2], 4)
+    b3l, b3w, b3a, b1res, (stats, b2res) = parallel([b3_laws, b3_width, b3_algo, b1, b2], 5)
 
     # ------------------------------------------------------------------ B1 verdicts
     run.cov["traces_validated_against_impl"] += b1res["runs"]
@@ -136,10 +164,14 @@ def check(run):
         run.sample({"b1_vector": s})
     for m in b1res["mismatches"] or []:
         v = m["vector"]
+        what = {"order": "a key is displayed after one the specification puts behind it",
+                "unstable": "another start of the same pool gave another sequence",
+                "perm": "the result is not a rearrangement of the pool", "build": "BuildSorter failed"}[m["kind"]]
         run.violation("b1:%s:%s:%s" % (v["mode"], v["cls"], m["kind"]),
-                      "--sort %s on keys %s (values %s) from start %s via %s: got order %s, the specification fixes %s" % (
-                          b2s(v["sort"]), m["names"], [k["value"] for k in v["pool"]], m["perm"], m["via"],
-                          m["got"], v["expect"]), m)
+                      "--sort %s on keys %s (totals %s under value map %s) from start %s via %s: got order %s; the specification "
+                      "ranks the keys %s (equal rank = tie): %s" % (
+                          b2s(v["sort"]), m["names"], [k["value"] for k in v["pool"]], json.dumps(v["vmap"]), m["perm"],
+                          m["via"], m["got"], v["ranks"], what), m)
 
     # ------------------------------------------------------------------ B2 verdicts
     run.cov["traces_validated_against_impl"] += stats["sorts"] + stats["matrices"]
@@ -164,8 +196,11 @@ def check(run):
             keep = {"reset": reset, "record": rec, "law": bad["law"], "class": bad["cls"], "count": bad["n"],
                     "names": names}
             run.violation("b2:%s:%s:%s:%s" % (bad["ev"], bad["law"], bad["mode"], bad["cls"]),
-                          "mode %s, keys %s (class %s): law '%s' broken by %d recorded %s record(s); first: sort %s via %s %s" % (
-                              bad["mode"], names, bad["cls"], bad["law"], bad["n"], bad["ev"], b2s(rec.get("sort", [])),
+                          "mode %s, keys %s (class %s; totals %s under value map %s): law '%s' broken by %d recorded %s record(s); "
+                          "first: sort %s (comparator from %s) via %s %s" % (
+                              bad["mode"], names, bad["cls"], [k["value"] for k in reset["pool"]],
+                              json.dumps(reset.get("vmap")), bad["law"], bad["n"], bad["ev"], b2s(rec.get("sort", [])),
+                              {"pkg": "the package-level sorter", "build": "helpers.BuildSorter"}.get(rec.get("src"), "?"),
                               bad["via"], json.dumps({k: rec[k] for k in ("m", "sub", "outs") if k in rec})[:400]), keep)
     run.cov["b2_events"] = consumed
     run.cov["distinct_nontrivial"] += stats["traces"]
@@ -177,7 +212,8 @@ def check(run):
             break
     run.sample({"b2_reset": head[0]})
     run.cov["rule"] = ("B3: every (mode, a, b, c) over the key universes, every comparator satisfying the axioms x every "
-                       "start permutation of the model sort; B1: every pool of 2..4(5) keys of a homogeneous universe whose "
-                       "order the spec fixes, every permutation and every aggregator accessor, non-trivial = >= 3 keys; "
-                       "B2: one trace per (pool, mode): 10 decision matrices + sorts of every permutation of small subsets, "
+                       "start permutation of the model sort; B1: every pool of 2..4 keys of a homogeneous universe "
+                       "(tied keys included where the universe has them; totals under five value maps), every permutation and "
+                       "every aggregator accessor, non-trivial = >= 3 keys; "
+                       "B2: one trace per (pool, mode): 10-12 decision matrices + sorts of every permutation of small subsets, "
                        "random permutations, map-order starts and CLI runs; every trace has >= 3 keys")
